@@ -1,7 +1,7 @@
 (** C08 — property theorems only. *)
-From Coq Require Import List NArith ZArith Bool.
+From Coq Require Import List NArith ZArith Bool Lia.
 Import ListNotations.
-Require Import Aurora.Consts Aurora.C08.Model Aurora.C08.ProofsArith.
+Require Import Aurora.Consts Aurora.C08.Model Aurora.C08.ProofsArith Aurora.C08.ProofsEnc Aurora.C08.ProofsTop.
 Local Open Scope N_scope.
 
 Definition chunk : N := Z.to_N Consts.boson_ChunkSize.
@@ -20,7 +20,39 @@ Lemma side_chunk : chunk = refsize * branching. Proof. vm_compute. reflexivity. 
 Lemma side_b : 2 <= branching. Proof. vm_compute. discriminate. Qed.
 Lemma side_rs : 1 <= refsize. Proof. vm_compute. discriminate. Qed.
 Lemma side_w : 2 * chunk <= W64. Proof. vm_compute. discriminate. Qed.
+Lemma side_c2 : 2 <= chunk. Proof. vm_compute. discriminate. Qed.
 Lemma side_k : W64 <= chunk * branching ^ N.of_nat 4. Proof. vm_compute. discriminate. Qed.
+
+Lemma side_k7 : W64 <= chunk * branching ^ 7. Proof. vm_compute. discriminate. Qed.
+Lemma side_c1 : 1 <= chunk. Proof. vm_compute. discriminate. Qed.
+Lemma side_fuel : forall x, x < W64 -> x <= chunk * branching ^ N.of_nat 64.
+Proof.
+  intros x Hx. apply N.lt_le_incl. eapply N.lt_le_trans; [exact Hx|]. vm_compute. discriminate.
+Qed.
+
+(** ---- encryption.go: invertible, exact padded length.
+    [H] is any hash whose digests are at least as long as the key (the code
+    indexes the digest up to keyLen); every key, padding, initial counter and
+    counter index (all fields of [e]), every padding oracle. *)
+Theorem C08_roundtrip : forall (H : list N -> list N) (e : enc),
+  (0 < length (e_key e))%nat -> (forall x, (length (e_key e) <= length (H x))%nat) ->
+  forall (data : list N) (pad : nat -> N),
+  (e_padding e <= 0 \/ Z.of_nat (length data) <= e_padding e)%Z ->
+  exists ct e1,
+    encrypt H e data pad = Ok (ct, e1) /\
+    length ct = out_len e (length data) /\
+    exists pt e2, decrypt H e ct = Ok (pt, e2) /\ length pt = length ct /\ firstn (length data) pt = data.
+Proof. exact enc_roundtrip. Qed.
+Print Assumptions C08_roundtrip.
+
+Theorem C08_length : forall (H : list N -> list N) (e : enc) (data : list N) (pad : nat -> N),
+  (0 < length (e_key e))%nat -> (forall x, (length (e_key e) <= length (H x))%nat) ->
+  (0 < e_padding e)%Z ->
+  ((Z.of_nat (length data) <= e_padding e)%Z ->
+     exists ct e1, encrypt H e data pad = Ok (ct, e1) /\ Z.of_nat (length ct) = e_padding e) /\
+  ((e_padding e < Z.of_nat (length data))%Z -> encrypt H e data pad = Err).
+Proof. exact enc_length. Qed.
+Print Assumptions C08_length.
 
 (** for ALL uint64 inputs the loop of decryptChunkData exits after at most 4
     iterations with a length of at most ChunkSize (so [decryptedData[:length]] is in range) *)
@@ -44,3 +76,73 @@ Theorem C08_recover_intermediate : forall x : N, chunk < x -> x + chunk <= W64 -
             recover chunk refsize x = Some (refsize * r).
 Proof. exact (recover_intermediate_props chunk branching refsize side_chunk side_b side_rs side_w). Qed.
 Print Assumptions C08_recover_intermediate.
+
+(** the tree-shape count in closed form: with h the least height such that
+    S <= ChunkSize * b^h, the root holds ceil(S / (ChunkSize * b^(h-1))) references *)
+Theorem C08_refs_closed_form : forall x : N, chunk < x -> x < W64 ->
+  root_refs chunk branching x = Some (cdiv x (chunk * branching ^ N.of_nat (height chunk branching x - 1))) /\
+  x <= chunk * branching ^ N.of_nat (height chunk branching x) /\
+  (forall h', (h' < height chunk branching x)%nat -> chunk * branching ^ N.of_nat h' < x).
+Proof.
+  exact (fun x Hx Hw => conj (root_refs_is_closed chunk branching side_c2 side_b x Hx Hw)
+          (height_from_spec chunk branching side_c2 side_b 64 chunk x side_c1 (side_fuel x Hw))).
+Qed.
+Print Assumptions C08_refs_closed_form.
+
+(** outside every file size (spans are below 2^63 in the joiner): in the last
+    ChunkSize values of uint64 the addition wraps and the recovered length is 0 *)
+Theorem C08_recover_wrap_region : forall x : N, x < W64 -> W64 < x + chunk ->
+  recover_loop loop_fuel chunk refsize x = Some (0, 1%nat).
+Proof. exact (recover_wrap chunk branching refsize side_chunk side_b side_rs side_w). Qed.
+Print Assumptions C08_recover_wrap_region.
+
+(** ---- chunk_encryption.go + pipeline encryption writer + decrypt_store.go:
+    the stored form has exactly SpanSize + ChunkSize bytes and the decrypting
+    store restores span ++ payload exactly — the data length for a leaf,
+    refsize bytes per child reference for an intermediate chunk *)
+Theorem C08_chunk_restored : forall (H : list N -> list N) (key : list N) (S : N) (payload : list N) (pad : nat -> N),
+  (0 < length key)%nat -> (forall x, (length key <= length (H x))%nat) ->
+  (S = N.of_nat (length payload) /\ S <= chunk) \/
+  (chunk < S /\ S + chunk <= W64 /\
+   exists r, root_refs chunk branching S = Some r /\ N.of_nat (length payload) = refsize * r) ->
+  exists stored,
+    encrypt_chunk_stored H chunk refsize key (le64 S ++ payload) pad = Ok stored /\
+    length stored = (8 + N.to_nat chunk)%nat /\
+    decrypt_chunk_data H chunk refsize stored key = Ok (le64 S ++ payload).
+Proof. exact (fun H => chunk_restored H chunk branching refsize side_chunk side_b side_rs side_w). Qed.
+Print Assumptions C08_chunk_restored.
+
+(** ---- hashtrie.go (encrypted pipeline: branching = Branches/2, 64-byte references):
+    for EVERY non-empty file size up to 2^64 - ChunkSize, feeding the writer the
+    leaf spans of the file and calling Sum yields a root reference spanning the
+    file, and every intermediate chunk it hands to the short pipeline carries
+    exactly the number of references that the reader recovers from its span:
+    recovered length = refsize * stored references *)
+Theorem C08_writer_reader_agree : forall size : N, 0 < size -> size + chunk <= W64 ->
+  exists em,
+    trie_run (N.to_nat branching) (leaf_spans chunk size) = Ok (size, em) /\
+    Forall (fun e => chunk < fst e /\ root_refs chunk branching (fst e) = Some (snd e) /\
+                     2 <= snd e <= branching /\
+                     recover chunk refsize (fst e) = Some (refsize * snd e)) em.
+Proof. exact (fun size => writer_reader_agree chunk branching refsize side_chunk side_b side_rs side_w size side_k7). Qed.
+Print Assumptions C08_writer_reader_agree.
+
+(** non-vacuity: a concrete hash with 32-byte digests, a 32-byte key, a payload
+    that is padded, and spans on three tree heights *)
+Example C08_hyps_satisfiable :
+  let H := fun l : list N => repeat (N.of_nat (length l) + 7) 32 in
+  let e := mkEnc (repeat 5 32) 100 4294967295 3 in
+  (0 < length (e_key e))%nat /\ (forall x, (length (e_key e) <= length (H x))%nat) /\
+  (exists ct e1, encrypt H e (repeat 9 70) (fun _ => 1) = Ok (ct, e1) /\ length ct = 100%nat /\
+     exists pt e2, decrypt H e ct = Ok (pt, e2) /\ firstn 70 pt = repeat 9 70) /\
+  root_refs chunk branching (chunk + 1) = Some 2 /\
+  root_refs chunk branching (chunk * branching + 1) = Some 2 /\
+  root_refs chunk branching (chunk * branching * 7) = Some 7 /\
+  recover chunk refsize (chunk * branching * branching * 5 + 1) = Some (refsize * 6) /\
+  trie_run 2 (leaf_spans 128 (128 * 5 + 3)) = Ok (643, [(256, 2); (256, 2); (512, 2); (131, 2); (643, 2)]).
+Proof.
+  cbn zeta. split; [cbn; lia|]. split; [intros x; rewrite repeat_length; cbn; lia|].
+  split; [|vm_compute; repeat split; reflexivity].
+  eexists _, _. split; [vm_compute; reflexivity|]. split; [reflexivity|].
+  eexists _, _. split; [vm_compute; reflexivity|]. vm_compute. reflexivity.
+Qed.
